@@ -11,6 +11,7 @@ S5  the property on Rust results: pointwise 0 <= JSI <= singles (signal and idle
 import math
 import subprocess
 from vlib.common import *
+from props import wrappers
 
 IMPORTS = ("From Coquelicot Require Import Coquelicot.\n"
            "From SpdVerif Require Import Base.Rx Gen.Efficiencies Spec.Overlap Proofs.C08_efficiency Proofs.C08_overlap Proofs.C08_tac.\n")
@@ -554,13 +555,15 @@ def replay(ctx, binp):
 def run(ctx):
     binp = build_harness(ctx)
     if getattr(ctx, "replay", None):
-        r = replay(ctx, binp)
+        r = wrappers.try_replay(ctx, binp)      # a record written by the wrappers stage (SPDC::efficiencies forwarding chain)
+        if r is None:
+            r = replay(ctx, binp)
         if r is not None:
             return r
-    msgs, spans = regen(ctx, ["spectrum", "efficiencies", "pm_integrand", "pm_singles"])
+    msgs, spans = regen(ctx, ["spectrum", "efficiencies", "pm_integrand", "pm_singles", "wrappers"])
     ctx.cov["translated_spans"] = {k: v for k, v in spans.items() if k.startswith(("spdc::efficiencies", "jsa::joint_spectrum", "phasematch::normalization"))}
     for m in msgs:
-        ctx.proof_failures.append(("Gen/Efficiencies.v", "translator", m))
+        ctx.proof_failures.append(("Gen/Wrappers.v" if m.rstrip().endswith("[generator wrappers]") else "Gen/Efficiencies.v", "translator", m))
     proved = (not msgs) and prove(ctx, "C08", extra_targets=["Proofs/C08_tac.vo"] + ([] if ctx.tier == "quick" else ["Proofs/PMCaseTac.vo"]))
     if proved:   # the refuted lemmas live outside the property's obligations: a failure here is only noted
         okf, _, _ = coq_build(ctx, ["Findings/C08_singles_branch.vo"])
@@ -601,6 +604,8 @@ def run(ctx):
         tag_obligations(ctx, n0, hargs)
     else:
         ctx.note("correspondence cases skipped: generated model / case tactics did not compile")
+    # the forwarding chain SPDC::efficiencies -> efficiencies -> counts_* -> efficiencies_from_counts (Gen/Wrappers.v) on the implementation
+    wrappers.run_stage(ctx, binp, "efficiencies", n=4 if quick else 16)
     if not quick and os.path.exists(os.path.join(COQ, "Gen/PMSingles.vo")):
         # group I's correspondence of the GENERATED singles integrand with phasematch_singles_fiber_coupling (about 7 CPU-min per case)
         try:
@@ -631,6 +636,9 @@ def run(ctx):
         "pointwise JSI <= singles": "validated_only (oracle over the property's box); the chain pointwise => rates => efficiencies is proved (C08_pointwise_partial)",
         "no-diffraction ratio = eta F^2 / R to 1e-4": "proved as a LIMIT on the generated coincidence and singles integrands (C08_limit_generated, group I's proofs over Gen/PMIntegrand.v / Gen/PMSingles.v: collinear, round beams, no apodization, ff = 0); the rate 1e-4 at waists >= 1 mm validated_only",
         "finite rates": "validated_only",
+        "SPDC::efficiencies(ranges, integrator) = efficiencies_from_counts(counts_coincidences, counts_singles_signal, counts_singles_idler) of the same "
+        "object, ranges and integrator": "proved on the generated forwarders (C08_spdc_efficiencies, C08_spdc_efficiencies_in_unit_interval over "
+                                         "Gen/Wrappers.v) + bit-exact comparison on the implementation (S5, method / free function / from counts)",
     }
     return finish(ctx, assumptions=[
         "the two fibre-coupling integrals are oracles of the model (another property models the integrands); the inequality between them is validated by sampling",
